@@ -32,6 +32,21 @@ Theorem C17_remove_ordinary : forall p qs, ordinary p = true -> ends_with_slash 
 Proof. exact remove_slash_ordinary. Qed.
 Print Assumptions C17_remove_ordinary.
 
+(* forwarding mode (no redirect code): the path handed on is the request path with the slash added / removed -
+   nothing else changes - and the request URI is rewritten exactly when the path is *)
+Theorem C17_add_forward : forall p qs,
+  fst (add_slash_forward p qs) = (if ends_with_slash p then p else p ++ ["/"]) /\
+  ends_with_slash (fst (add_slash_forward p qs)) = true /\
+  (snd (add_slash_forward p qs) = None <-> ends_with_slash p = true).
+Proof. exact add_forward_spec. Qed.
+Print Assumptions C17_add_forward.
+
+Theorem C17_remove_forward : forall p qs,
+  fst (remove_slash_forward p qs) = (if Nat.ltb 1 (List.length p) && ends_with_slash p then removelast p else p) /\
+  (snd (remove_slash_forward p qs) = None <-> (Nat.ltb 1 (List.length p) && ends_with_slash p) = false).
+Proof. exact remove_forward_spec. Qed.
+Print Assumptions C17_remove_forward.
+
 (* non-vacuity and the historic counterexample: "/<TAB>/example.com" *)
 Example C17_example :
   add_slash (lit "/" ++ ["009"] ++ lit "/example.com") (lit "a=b") = Some (lit "/example.com/?a=b")
